@@ -1,6 +1,7 @@
 CONSTANTS
   MaxPath = 1
   NFlowsA = 0
+  SymLits <- SymNone
   MaxFlows = 0
   FlowDomain = {}
   TxnDomain = {}
